@@ -100,6 +100,9 @@ def run_case(st, base, which, r, spelling, table, scn):
     for j, s in enumerate(strings):
         cls = V if j == 0 else M
         ents.append(cls(rec if j == which else gen.crec(s, "p%d" % j)))
+    # a typed wrapper of the same plasmid at rotation 0 stays alive during the assembly
+    alive = (V if which == 0 else M)(gen.crec(s0, "ann0"))
+    alive.is_valid()
     o = asm.run_assemble(ents[0], ents[1:])
     if o.kind != "product":
         st.violation("assembly", "annotated-inputs-do-not-assemble", scn, "product", o.brief())
